@@ -78,10 +78,8 @@ def z3_check(hyps: Sequence, goal, timeout_ms=None, tactic: Optional[str] = None
     else:
         s = z3.Solver()
     s.set("timeout", int(timeout_ms))
-    try:
+    if not tactic:
         s.set("random_seed", int(seed))
-    except z3.Z3Exception:
-        pass
     for h in hyps:
         s.add(h)
     s.add(z3.Not(goal))
@@ -100,6 +98,33 @@ def z3_check(hyps: Sequence, goal, timeout_ms=None, tactic: Optional[str] = None
 
 # --------------------------------------------------------------------------
 # gb: polynomial ideal membership
+
+import contextlib
+import signal
+
+
+class _GbTimeout(Exception):
+    pass
+
+
+@contextlib.contextmanager
+def _time_limit(secs):
+    def handler(signum, frame):
+        raise _GbTimeout()
+    try:
+        old = signal.signal(signal.SIGALRM, handler)
+    except ValueError:      # not in the main thread: no limit available
+        yield
+        return
+    signal.setitimer(signal.ITIMER_REAL, secs)
+    try:
+        yield
+    finally:
+        signal.setitimer(signal.ITIMER_REAL, 0)
+        signal.signal(signal.SIGALRM, old)
+
+
+_GB_CACHE = {}
 
 
 def _z3_to_sympy(e, syms: Dict[str, object]):
@@ -157,47 +182,65 @@ def _split_conj(g):
     return [g]
 
 
-def gb_check(hyps: Sequence, goal, order="grevlex", max_secs=60.0):
+def gb_check(hyps: Sequence, goal, order="grevlex", max_secs=None):
     """Sound: if every equality of the goal lies in the ideal generated by the
     hypotheses' polynomial equalities (disequalities e != 0 by Rabinowitsch:
     t*e - 1), the implication holds over any commutative ring, hence over R.
     Inequality hypotheses are dropped (weakening the hypothesis set is sound)."""
-    import sympy as sp
     t0 = time.time()
+    max_secs = max_secs or float(os.environ.get("VERIF_GB_SECS", "40"))
+    key = tuple(h.get_id() for h in hyps) + (order,)
+    if _GB_CACHE.get(key, (None,))[0] == "timeout":
+        return Verdict("undecided", "gb", time.time() - t0, reason="gb wall limit (cached)")
+    try:
+        with _time_limit(max_secs):
+            return _gb_check(hyps, goal, order, t0)
+    except _GbTimeout:
+        _GB_CACHE[key] = ("timeout", list(hyps))
+        return Verdict("undecided", "gb", time.time() - t0, reason=f"gb wall limit {max_secs}s")
+    except RecursionError:
+        return Verdict("undecided", "gb", time.time() - t0, reason="gb recursion limit")
+
+
+def _gb_prepare(hyps, order):
+    """hypotheses -> (syms, substitutions, Groebner basis or None)"""
+    import sympy as sp
+    key = tuple(h.get_id() for h in hyps) + (order,)
+    hit = _GB_CACHE.get(key)
+    if hit is not None and hit[0] != "timeout":
+        return hit[1:]
     syms: Dict[str, object] = {}
     gens_polys = []
-    try:
-        for h in hyps:
-            for a in _split_conj(h):
-                if z3.is_eq(a) and z3.is_arith(a.arg(0)):
+    for h in hyps:
+        for a in _split_conj(h):
+            if z3.is_eq(a) and z3.is_arith(a.arg(0)):
+                try:
                     gens_polys.append(sp.expand(_z3_to_sympy(a.arg(0), syms) - _z3_to_sympy(a.arg(1), syms)))
-                elif z3.is_distinct(a) and len(a.children()) == 2 and z3.is_arith(a.arg(0)):
-                    tt = sp.Symbol("rab%d" % len(syms))
-                    syms["rab%d" % len(syms)] = tt
-                    e = _z3_to_sympy(a.arg(0), syms) - _z3_to_sympy(a.arg(1), syms)
-                    gens_polys.append(sp.expand(tt * e - 1))
+                except ValueError:
+                    continue        # non-polynomial hypothesis: dropped (sound)
+            else:
+                ne = None
+                if z3.is_distinct(a) and len(a.children()) == 2 and z3.is_arith(a.arg(0)):
+                    ne = (a.arg(0), a.arg(1))
                 elif z3.is_not(a) and z3.is_eq(a.arg(0)) and z3.is_arith(a.arg(0).arg(0)):
+                    ne = (a.arg(0).arg(0), a.arg(0).arg(1))
+                if ne is not None:
+                    try:
+                        e = _z3_to_sympy(ne[0], syms) - _z3_to_sympy(ne[1], syms)
+                    except ValueError:
+                        continue
                     tt = sp.Symbol("rab%d" % len(syms))
                     syms["rab%d" % len(syms)] = tt
-                    e = _z3_to_sympy(a.arg(0).arg(0), syms) - _z3_to_sympy(a.arg(0).arg(1), syms)
                     gens_polys.append(sp.expand(tt * e - 1))
-        goals = []
-        for a in _split_conj(goal):
-            if not (z3.is_eq(a) and z3.is_arith(a.arg(0))):
-                return Verdict("undecided", "gb", time.time() - t0, reason="goal is not a conjunction of polynomial equalities")
-            goals.append(sp.expand(_z3_to_sympy(a.arg(0), syms) - _z3_to_sympy(a.arg(1), syms)))
-    except ValueError as e:
-        return Verdict("undecided", "gb", time.time() - t0, reason=str(e))
     gens_polys = [p for p in gens_polys if p != 0]
-    # eliminate defining equalities v = e (v linear with constant coefficient, not in e)
-    subs_done = True
+    subs = []
+    changed = True
     rounds = 0
-    while subs_done and rounds < 200:
-        subs_done = False
+    while changed and rounds < 300:
+        changed = False
         rounds += 1
         for i, p in enumerate(gens_polys):
-            fs = sorted(p.free_symbols, key=lambda s: s.name)
-            for v in fs:
+            for v in sorted(p.free_symbols, key=lambda s_: s_.name):
                 P = sp.Poly(p, v)
                 if P.degree() == 1:
                     a, b = P.all_coeffs()
@@ -206,32 +249,73 @@ def gb_check(hyps: Sequence, goal, order="grevlex", max_secs=60.0):
                         if sp.count_ops(sol) > 60:
                             continue
                         rest = gens_polys[:i] + gens_polys[i + 1:]
-                        gens_polys = [sp.expand(q.subs(v, sol)) for q in rest]
-                        gens_polys = [q for q in gens_polys if q != 0]
-                        goals = [sp.expand(g.subs(v, sol)) for g in goals]
-                        subs_done = True
+                        gens_polys = [q for q in (sp.expand(q.subs(v, sol)) for q in rest) if q != 0]
+                        subs.append((v, sol))
+                        changed = True
                         break
-            if subs_done:
+            if changed:
                 break
+    G = None
+    if gens_polys:
+        allsyms = set()
+        for p in gens_polys:
+            allsyms |= p.free_symbols
+        gens = sorted(allsyms, key=lambda s_: (not s_.name.startswith("rab"), s_.name))
+        G = sp.groebner(gens_polys, *gens, order=order)
+    _GB_CACHE[key] = (list(hyps), syms, subs, G)     # keep the z3 terms alive with the ids
+    return syms, subs, G
+
+
+def _gb_check(hyps, goal, order, t0):
+    import sympy as sp
+    goals_z3 = []
+    for a in _split_conj(goal):
+        if not (z3.is_eq(a) and z3.is_arith(a.arg(0))):
+            return Verdict("undecided", "gb", time.time() - t0, reason="goal is not a conjunction of polynomial equalities")
+        goals_z3.append(a)
+    syms, subs, G = _gb_prepare(list(hyps), order)
+    try:
+        goals = [sp.expand(_z3_to_sympy(a.arg(0), syms) - _z3_to_sympy(a.arg(1), syms)) for a in goals_z3]
+    except ValueError as e:
+        return Verdict("undecided", "gb", time.time() - t0, reason=str(e))
+    for v, sol in subs:
+        goals = [sp.expand(g.subs(v, sol)) if g.has(v) else g for g in goals]
     goals = [g for g in goals if g != 0]
     if not goals:
         return Verdict("discharged", "gb", time.time() - t0)
-    if not gens_polys:
+    if G is None:
         return Verdict("undecided", "gb", time.time() - t0, reason="no polynomial hypotheses; goal not identically zero")
-    allsyms = set()
-    for p in gens_polys + goals:
-        allsyms |= p.free_symbols
-    gens = sorted(allsyms, key=lambda s: (not s.name.startswith("rab"), s.name))
-    try:
-        G = sp.groebner(gens_polys, *gens, order=order)
-        for g in goals:
-            _, r = G.reduce(g)
-            if r != 0:
-                return Verdict("undecided", "gb", time.time() - t0,
-                               reason="goal not in the ideal (remainder non-zero)")
-    except Exception as e:  # pragma: no cover
-        return Verdict("undecided", "gb", time.time() - t0, reason=f"sympy: {e}")
+    gens = set(G.gens)
+    for g in goals:
+        if not g.free_symbols <= gens:
+            return Verdict("undecided", "gb", time.time() - t0, reason="goal mentions symbols the hypotheses do not constrain")
+        _, r = G.reduce(g)
+        if r != 0:
+            return Verdict("undecided", "gb", time.time() - t0, reason="goal not in the ideal (remainder non-zero)")
     return Verdict("discharged", "gb", time.time() - t0)
+
+
+def cert_check(hyps: Sequence, goal, combos) -> Verdict:
+    """Explicit ideal-membership certificate: goal is lhs == rhs, combos is a list
+    of (multiplier term, hypothesis) with each hypothesis an equality that occurs
+    (structurally) in ``hyps``.  Checks  (lhs - rhs) - sum m_i (l_i - r_i) == 0  as a
+    polynomial identity.  Sound over any commutative ring."""
+    import sympy as sp
+    t0 = time.time()
+    syms: Dict[str, object] = {}
+    try:
+        if not z3.is_eq(goal):
+            return Verdict("undecided", "cert", 0.0, reason="goal is not an equality")
+        acc = _z3_to_sympy(goal.arg(0), syms) - _z3_to_sympy(goal.arg(1), syms)
+        for mult, h in combos:
+            if not any(h.eq(x) for x in hyps):
+                return Verdict("undecided", "cert", time.time() - t0, reason="certificate uses a formula that is not a hypothesis")
+            acc = acc - _z3_to_sympy(mult, syms) * (_z3_to_sympy(h.arg(0), syms) - _z3_to_sympy(h.arg(1), syms))
+        if sp.expand(acc) == 0:
+            return Verdict("discharged", "cert", time.time() - t0)
+        return Verdict("undecided", "cert", time.time() - t0, reason="certificate does not check (non-zero remainder)")
+    except ValueError as e:
+        return Verdict("undecided", "cert", time.time() - t0, reason=str(e))
 
 
 # --------------------------------------------------------------------------
